@@ -60,6 +60,7 @@ def run(ctx):
     ctx.rule("R9.3", "blocking lock wait discipline: wait_lock is reached only with the job futures drained and after release_mine; the lock it obtains is unlocked before the next ensure_token_or_cheat")
     ctx.rule("R9.4", "one live Lock per id per command line (the in-process registry asserts on duplicates): dedupe on the canonical identity")
     ctx.rule("R9.5", "the event loop never selects on an empty set without a timer, polls the root future on every iteration, and every custom future registers a wake-up before returning Pending")
+    ctx.rule("R9.7", "retry loops do not grow a Duration without bound: a Duration multiplied inside a loop is clamped (cmp::min) before it is multiplied again (Duration arithmetic panics on overflow)")
     ctx.rule("R9.6", "inventory of assert/unwrap/expect sites reachable from the scheduler and the event loop (reported, not judged)")
 
     asserts = {k: v for k, v in pre.items() if v}
@@ -191,6 +192,42 @@ def run(ctx):
         p = pba.path([0], pend, avoid=frozenset(regs), incl=True) if pend else [0]
         ctx.ob("R9.5", "%s|registers-wakeup-before-Pending" % b.key, bool(regs) and p is None, where=b.span,
                detail="Pending is returned only after a waker/timer was registered" if regs and p is None else "Pending can be returned without registering a wake-up: the future is never polled again")
+
+    # ---- R9.7
+    n97 = 0
+    MUL = re.compile(r"<core::time::Duration as core::ops::arith::(MulAssign|Mul|AddAssign|Add)<.*>>::(mul_assign|mul|add_assign|add)")
+    for b in sorted(prog.bodies.values(), key=lambda x: x.key):
+        if not b.key.startswith(("builder::", "jobserver::")):
+            continue
+        bba = BA.of(b)
+        for k, i in common.ordinal_keys([("Duration-arith", i) for i in bba.calls(MUL)]):
+            t = b.blocks[i]["term"]
+            nxt = t.get("target")
+            in_loop = nxt is not None and bba.path([nxt], [i], incl=True) is not None
+            if not in_loop:
+                continue
+            n97 += 1
+            name = callee_paths(t)[0]
+            inplace = name.endswith("_assign")
+            if inplace:
+                var = bba.base_local_of_ref(op_local(t["args"][0]))
+            else:
+                var = op_local(t["args"][0])
+                sl, _, _ = backward_direct(b, var, depth=20)
+                named = [x for x in sl if b.local_name(x) != "_%d" % x]
+                var = named[0] if named else var
+            # every origin of the variable's value is a constructor from a constant or a cmp::min result
+            ALLOWED = r"core::cmp::min|core::time::Duration::from_(millis|secs|micros|nanos)|core::time::Duration::new|core::cmp::Ord::min|<core::time::Duration as core::cmp::Ord>::min"
+            _, org, _ = backward_direct(b, var, depth=40)
+            ok = (not inplace) and bool(org) and all(o[0] == "call" and call_matches(o[2], ALLOWED) for o in org)
+            if inplace:
+                # in-place growth: acceptable only if a clamp of the same variable lies on every way round the loop
+                clamps = [d[1] for d in bba.defs.get(var, []) if d[0] == "call" and call_matches(d[2], r"core::cmp::min|core::cmp::Ord::min")]
+                ok = bool(clamps) and bba.path([nxt], [i], avoid=frozenset(clamps), incl=True) is None
+            ctx.ob("R9.7", "%s|%s|bounded" % (b.key, k), ok, where=ctx.where(b, i),
+                   detail="the multiplied Duration is re-clamped with cmp::min on every way round the loop" if ok else
+                   "a Duration is doubled on every iteration of a retry loop without a cap: after about 70 iterations (roughly a minute of waiting for a job token) `Duration * 2` overflows and panics, aborting a build whose scripts all succeed")
+    ctx.floor("R9.7", "Duration arithmetic sites inside retry loops", n97, 2)
 
     # ---- R9.6 inventory
     fcl = {cl.key for _, _, cl in anchors.fork_closures(prog)}
